@@ -24,6 +24,8 @@ SCONF = {
     'esc':  dict(SBASE, Alpha=[97, 32, 233, 7], MaxLen=5, Depths=[3]),
     'b4':   dict(SBASE, MaxLen=5, Bests=[4], Widths=[9], Depths=[1, 3]),
     'lb':   dict(SBASE, MaxLen=4, Kinds=['item', 'root0'], LBs=['r', 'rn']),
+    # document markers as words (macro-symbols DOTS, DASHES of MC_Scalars.tla) at the start, inside, at fold points
+    'marks': dict(SBASE, Alpha=[97, 32, 900001, 900002], MaxLen=6, Kinds=['root0', 'item', 'mval', 'bkey', 'fitem'], Depths=[1, 3]),
     # thorough
     'wsl+':  dict(SBASE, MaxLen=7, Kinds=ALLK, Depths=[1, 3]),
     'w8+':   dict(SBASE, MaxLen=8, Kinds=['item', 'mval', 'fitem'], Widths=[8], Depths=[1, 2]),
@@ -33,8 +35,9 @@ SCONF = {
     'brk+':  dict(SBASE, Alpha=[97, 32, 10, 133, 8232], MaxLen=5, Kinds=['item', 'root0', 'mval', 'fitem'], Unis=[True]),
     'b4+':   dict(SBASE, MaxLen=6, Bests=[4, 9], Widths=[9, 19], Depths=[1, 3], Kinds=['item', 'mval', 'fitem']),
     'lb+':   dict(SBASE, MaxLen=5, Kinds=['item', 'root0', 'mval', 'fitem', 'bkey'], LBs=['r', 'rn'], Depths=[1, 3]),
+    'marks+': dict(SBASE, Alpha=[97, 32, 10, 900001, 900002], MaxLen=8, Kinds=ALLK, Depths=[1, 3]),
 }
-STIERS = {'quick': ['wsl', 'full', 'esc', 'b4', 'lb'], 'thorough': ['wsl+', 'w8+', 'full+', 'ctx+', 'esc+', 'brk+', 'b4+', 'lb+']}
+STIERS = {'quick': ['wsl', 'full', 'esc', 'b4', 'lb', 'marks'], 'thorough': ['wsl+', 'w8+', 'full+', 'ctx+', 'esc+', 'brk+', 'b4+', 'lb+', 'marks+']}
 PAIRS = [('python', 'Dumper', 'python', 'Loader'), ('python', 'Dumper', 'libyaml', 'CLoader'),
          ('libyaml', 'CDumper', 'libyaml', 'CLoader'), ('libyaml', 'CDumper', 'python', 'Loader')]
 CMP = ('k', 'a', 't', 'v', 'ver', 'tags')
@@ -203,7 +206,7 @@ def run_scalars(v, tier, results, acc, pending):
 
 
 # ------------------------------------------------------------------ part B: Emitter.tla
-EBASE = dict(Fix=[], Variant='"python"', Mode='"grammar"', MaxEvents=7, MaxDocs=1, Canons=[False], Bests=[2], Widths=[80],
+EBASE = dict(Fix=[], Variant='"python"', Mode='"grammar"', MaxEvents=7, MaxDocs=1, CollsAt='"any"', Canons=[False], Bests=[2], Widths=[80],
              Unis=[False], LBs=['n'], Vs=['word', 'empty'], Ss=['none'], SAs=[''], STs=[''], SIs=['tf'], CAs=[''], CTs=[''],
              CIs=[True], FSs=[False, True], AAs=['a1'], DXs=[False], DVs=[''], DTs=[''], EXs=[False])
 ECONF = {
@@ -216,6 +219,10 @@ ECONF = {
                    Widths=[5, 80], Bests=[2, 4], Unis=[True, False], LBs=['n', 'rn'], CAs=['', 'a1']),
     'any':    dict(EBASE, Mode='"any"', MaxEvents=5, MaxDocs=5, SIs=['tf', 'ff'], AAs=['a1', ''], DVs=['', '2.0'], FSs=[False],
                    DTs=['', 'badh']),
+    # collections as mapping keys (`? ` complex keys, written indentless after `? &a` / `? !t`), with anchors, tags, empty items
+    'keys':    dict(EBASE, MaxEvents=10, CollsAt='"key"', AAs=[], FSs=[False], CAs=['', 'a1'], CTs=['', 'local']),
+    # scalars that are or begin with a document marker word, or have one at a fold point; as keys, values, items, roots
+    'marks':   dict(EBASE, MaxEvents=8, Vs=['word', 'docsep', 'dashkey', 'dotkey', 'dotsfold', 'dashfold'], Widths=[5, 80], AAs=[]),
     'tagdocs': dict(EBASE, MaxEvents=8, MaxDocs=2, FSs=[], AAs=[], Vs=['word'], STs=['', 'hdl', 'local'], SIs=['tf', 'ff'],
                     DTs=['', 'h1'], DXs=[False, True]),
     # thorough
@@ -231,10 +238,11 @@ ECONF = {
                     Canons=[True, False], Widths=[5, 80], Bests=[2, 4], Unis=[True, False], LBs=['n', 'rn'], CAs=['', 'a1']),
     'folds+':  dict(EBASE, MaxEvents=7, Vs=['long', 'multiline'], Ss=['none', 'folded', 'literal'], Widths=[5], LBs=['n', 'r', 'rn'],
                     FSs=[False]),
+    'keys+':   dict(EBASE, MaxEvents=11, CollsAt='"key"', AAs=[], FSs=[False, True], CAs=['', 'a1'], CTs=['', 'local']),
     'any+':    dict(EBASE, Mode='"any"', MaxEvents=6, MaxDocs=6, SIs=['tf', 'ff'], AAs=['a1', ''], DVs=['', '2.0'],
                     DTs=['', 'badh'], FSs=[False]),
 }
-ETIERS = {'quick': ['struct', 'deep', 'attrs', 'opts', 'any', 'tagdocs'], 'thorough': ['struct+', 'deep', 'styles+', 'attrs+', 'dirs+', 'opts+', 'folds+', 'any+', 'tagdocs']}
+ETIERS = {'quick': ['struct', 'deep', 'attrs', 'opts', 'any', 'tagdocs', 'keys', 'marks'], 'thorough': ['struct+', 'deep', 'styles+', 'attrs+', 'dirs+', 'opts+', 'folds+', 'any+', 'tagdocs', 'keys+', 'marks']}
 KEEP = r'outcome \|-> "(done|EmitterError|Crash)"'
 METHODS = {"stream_start", "nothing", "first_document_start", "document_start", "document_end", "document_root",
            "first_flow_sequence_item", "flow_sequence_item", "first_flow_mapping_key", "flow_mapping_key",
@@ -386,6 +394,7 @@ def run_emitter(v, tier, results, acc, pending):
 OPT_PRODUCT = [dict(canonical=c, indent=i, width=w, allow_unicode=u, line_break=l)
                for c in (False, True) for i in (2, 4, 9) for w in (5, 20, 80) for u in (False, True) for l in ('\n', '\r\n', '\r')]
 REPERTOIRE = [97, 97, 97, 98, 32, 32, 32, 10, 10] + FULL
+WORDS = ['...', '---', '... ', '--- ', ' ...', ' ---']        # document markers as words
 
 
 def corpus_files():
@@ -413,7 +422,8 @@ def corpus_work(args):
             evs = []
             for e in events:
                 if isinstance(e, E.ScalarEvent):
-                    val = ep.concretise([rnd.choice(REPERTOIRE) for _ in range(rnd.randrange(0, 14))], rnd)
+                    val = ''.join(rnd.choice(WORDS) if rnd.random() < 0.08 else ep.concretise([rnd.choice(REPERTOIRE)], rnd)
+                                  for _ in range(rnd.randrange(0, 14)))
                     e = E.ScalarEvent(e.anchor, e.tag, e.implicit, val, style=rnd.choice([None, None, "'", '"', '|', '>']))
                 evs.append(e)
             variants.append(('random-scalars-%d' % j, evs))
